@@ -139,3 +139,56 @@ package bigslice
 //@   panic_ensures typecheck-error: hastype(panicval, *typecheck.Error)
 //@   ensures  result: hastype(out, *reshuffleSlice) && unbox(out, *reshuffleSlice).Slice == slice && unbox(out, *reshuffleSlice).partitioner != nil
 //@   modifies nothing
+
+// Const(nshard, cols...): at least one column, nshard >= 1, every column a Go slice, all of the same length
+//@ spec func constSchema(nshard int, columns []interface{}) bool = len(columns) >= 1 && nshard >= 1 && forall(i, 0, len(columns), columns[i] != nil && rtKind(dynRType(columns[i])) == reflect.Slice && goLen(columns[i]) == goLen(columns[0]))
+//@ func bigslice.Const (nshard, columns) (out)
+//@   panics_if !constSchema(nshard, columns)
+//@   panic_ensures typecheck-error: hastype(panicval, *typecheck.Error)
+//@   ensures  result: hastype(out, *constSlice) && unbox(out, *constSlice).nshard == nshard && tyNumOut(unbox(out, *constSlice).Type) == len(columns) && forall(i, 0, len(columns), tyOut(unbox(out, *constSlice).Type, i) == rtElem(dynRType(columns[i])))
+//@   modifies nothing
+
+// ReaderFunc(nshard, func(shard int, state S, col1 []t1, ..., coln []tn) (int, error)) Slice<t1..tn>
+//@ spec func readerSchema(read any) bool = isFuncValue(read) && tyNumOut(fnIn(read)) >= 3 && rtKind(tyOut(fnIn(read), 0)) == reflect.Int && tyNumOut(fnOut(read)) == 2 && rtKind(tyOut(fnOut(read), 0)) == reflect.Int && tyOut(fnOut(read), 1) == typeOfError && forall(i, 2, tyNumOut(fnIn(read)), rtKind(tyOut(fnIn(read), i)) == reflect.Slice)
+//@ func bigslice.ReaderFunc (nshard, read, prags) (out)
+//@   panics_if !readerSchema(read)
+//@   panic_ensures typecheck-error: hastype(panicval, *typecheck.Error)
+//@   ensures  result: hastype(out, *readerFuncSlice) && unbox(out, *readerFuncSlice).nshard == nshard && tyNumOut(unbox(out, *readerFuncSlice).Type) == tyNumOut(fnIn(read)) - 2 && forall(i, 0, tyNumOut(fnIn(read)) - 2, tyOut(unbox(out, *readerFuncSlice).Type, i) == rtElem(tyOut(fnIn(read), i + 2)))
+//@   modifies nothing
+
+// WriterFunc(Slice<t1..tn>, func(shard int, state S, err error, col1 []t1, ..., coln []tn) error) Slice<t1..tn>
+//@ spec func writerSchema(slice slicetype.Type, write any) bool = isFuncValue(write) && tyNumOut(fnIn(write)) == 3 + tyNumOut(slice) && rtKind(tyOut(fnIn(write), 0)) == reflect.Int && tyOut(fnIn(write), 2) == typeOfError && forall(i, 0, tyNumOut(slice), tyOut(fnIn(write), i + 3) == rtSliceOf(tyOut(slice, i))) && tyNumOut(fnOut(write)) == 1 && tyOut(fnOut(write), 0) == typeOfError
+//@ func bigslice.WriterFunc (slice, write) (out)
+//@   requires wfSliceType(slice)
+//@   panics_if !writerSchema(slice, write)
+//@   panic_ensures typecheck-error: hastype(panicval, *typecheck.Error)
+//@   ensures  result: hastype(out, *writerFuncSlice) && unbox(out, *writerFuncSlice).Slice == slice
+//@   modifies nothing
+//@   loop 1 invariant len(colTypElems) == tyNumOut(slice) && fresh(colTypElems)
+//@   loop 2 invariant 0 <= i && i <= tyNumOut(slice) && forall(j, 0, i, tyOut(fnIn(write), j + 3) == rtSliceOf(tyOut(slice, j)))
+
+//@ func bigslice.Head (slice, n) (out)
+//@   ensures  result: hastype(out, *headSlice) && unbox(out, *headSlice).Slice == slice && unbox(out, *headSlice).n == n
+//@   modifies nothing
+//@ func bigslice.Scan (slice, scan) (out)
+//@   ensures  result: hastype(out, *scanSlice) && unbox(out, *scanSlice).Slice == slice
+//@   modifies nothing
+
+// Cogroup(Slice<k1..kp, ...>, ...): at least one slice, each with columns, all with the same prefix p and identical,
+// hashable and comparable key column types; result Slice<k1..kp, [][]rest...> with the maximum shard count.
+//@ spec func cogroupSchema(slices []Slice) bool = len(slices) >= 1 && forall(i, 0, len(slices), tyNumOut(slices[i]) >= 1 && tyPrefix(slices[i]) == tyPrefix(slices[0]) && forall(j, 0, tyPrefix(slices[0]), tyOut(slices[i], j) == tyOut(slices[0], j))) && forall(j, 0, tyPrefix(slices[0]), canHash(tyOut(slices[0], j)) && canCompare(tyOut(slices[0], j)))
+//@ func bigslice.Cogroup (slices) (out)
+//@   requires forall(i, 0, len(slices), wfSliceType(slices[i]))
+//@   panics_if !cogroupSchema(slices)
+//@   panic_ensures typecheck-error: hastype(panicval, *typecheck.Error)
+//@   ensures  result: hastype(out, *cogroupSlice) && unbox(out, *cogroupSlice).prefix == tyPrefix(slices[0]) && forall(j, 0, tyPrefix(slices[0]), unbox(out, *cogroupSlice).out[j] == tyOut(slices[0], j))
+//@   ensures  shards: forall(i, 0, len(slices), slNumShard(slices[i]) <= unbox(out, *cogroupSlice).numShard) && (unbox(out, *cogroupSlice).numShard == 0 || exists(i, 0, len(slices), slNumShard(slices[i]) == unbox(out, *cogroupSlice).numShard))
+//@   modifies nothing
+//@   loop 1 invariant keys: implies(range_idx == 0, len(keyTypes) == 0 && keyTypes.arr == 0) && implies(range_idx > 0, len(keyTypes) == tyPrefix(slices[0]) && fresh(keyTypes) && forall(j, 0, len(keyTypes), keyTypes[j] == tyOut(slices[0], j)))
+//@   loop 1 invariant agree: forall(k, 0, range_idx, tyNumOut(slices[k]) >= 1 && tyPrefix(slices[k]) == tyPrefix(slices[0]) && forall(j, 0, tyPrefix(slices[0]), tyOut(slices[k], j) == tyOut(slices[0], j)))
+//@   loop 2 invariant len(keyTypes) == tyPrefix(slice) && fresh(keyTypes) && forall(m, 0, range_idx, keyTypes[m] == tyOut(slice, m))
+//@   loop 3 invariant forall(m, 0, range_idx, tyOut(slice, m) == keyTypes[m])
+//@   loop 4 invariant forall(m, 0, range_idx, canHash(keyTypes[m]) && canCompare(keyTypes[m]))
+//@   loop 5 invariant (out.arr == keyTypes.arr || fresh(out)) && len(out) >= len(keyTypes) && forall(j, 0, len(keyTypes), out[j] == tyOut(slices[0], j))
+//@   loop 6 invariant (out.arr == keyTypes.arr || fresh(out)) && len(out) >= len(keyTypes) && forall(j, 0, len(keyTypes), out[j] == tyOut(slices[0], j)) && i >= len(keyTypes)
+//@   loop 7 invariant forall(k, 0, range_idx, slNumShard(slices[k]) <= numShard) && (numShard == 0 || exists(k, 0, range_idx, slNumShard(slices[k]) == numShard))
